@@ -274,7 +274,24 @@ fn case(sub: &str) -> Option<Box<CaseFn<'static>>> {
         "odd-characters" => Some(Box::new(insertion_case)),
         "token-soup" => Some(Box::new(soup_case)),
         "alloc-scaling" => Some(Box::new(scaling_case)),
+        "raw-file" => Some(Box::new(|src: &mut Src, ctx: &mut Ctx| {
+            let mut bytes = vec![];
+            while !src.exhausted() {
+                bytes.push(src.word() as u8);
+            }
+            match String::from_utf8(bytes) {
+                Ok(t) => check_text(&t, ctx),
+                Err(_) => Ok(()),
+            }
+        })),
         _ => None,
+    }
+}
+/// Seed corpus for the libFuzzer campaign of the thorough tier
+pub fn dump_corpus(dir: &str) {
+    let _ = std::fs::create_dir_all(dir);
+    for (i, b) in bases().iter().enumerate() {
+        let _ = std::fs::write(format!("{}/base{:02}.lef", dir, i), &b.text);
     }
 }
 fn render_case(sub: &str, choices: &[u32]) -> Option<String> {
